@@ -80,6 +80,34 @@ func (c *Ctx) mutatedFields(mut map[*ssa.Function]string) map[string]string {
 	out := map[string]string{}
 	for _, fn := range c.SrcFuncs("engine") {
 		instrsOf(fn, func(in ssa.Instruction) {
+			// direct updates of a map or a slice element reached through a struct field
+			mark := func(ref ssa.Value, what string, pos token.Pos) {
+				ch := traceAddr(ref)
+				for _, s := range ch.Steps {
+					if s.Kind == "field" && s.Struct != nil {
+						if n, ok := s.Struct.(*types.Named); ok {
+							key := n.Obj().Name() + "." + s.Field
+							if _, dup := out[key]; !dup {
+								out[key] = fmt.Sprintf("%s %s [%s]", fnName(fn), what, c.pos(pos))
+							}
+						}
+					}
+				}
+			}
+			switch x := in.(type) {
+			case *ssa.MapUpdate:
+				if _, fresh := x.Map.(*ssa.MakeMap); !fresh {
+					mark(x.Map, "updates the map", x.Pos())
+				}
+				return
+			case *ssa.Store:
+				if ia, ok := x.Addr.(*ssa.IndexAddr); ok {
+					if _, isSlice := ia.X.Type().Underlying().(*types.Slice); isSlice {
+						mark(ia.X, "stores into an element of the slice", x.Pos())
+					}
+				}
+				return
+			}
 			call, ok := in.(*ssa.Call)
 			if !ok || len(call.Call.Args) == 0 {
 				return
@@ -146,7 +174,30 @@ func (c *Ctx) deepFresh(v ssa.Value, depth int) (bool, string) {
 	case *ssa.Const:
 		return true, ""
 	case *ssa.Alloc:
+		// a struct built in place: the references stored into its fields must be fresh as well
+		if st, isStruct := deref(x.Type()).Underlying().(*types.Struct); isStruct {
+			for _, ref := range *x.Referrers() {
+				fa, ok := ref.(*ssa.FieldAddr)
+				if !ok {
+					continue
+				}
+				ft := st.Field(fa.Field).Type()
+				if !isRefType(ft) && !hasRefField(ft) {
+					continue
+				}
+				for _, r2 := range *fa.Referrers() {
+					if s, ok := r2.(*ssa.Store); ok && s.Addr == ssa.Value(fa) {
+						if ok, w := c.deepFresh(s.Val, depth+1); !ok {
+							return false, "field " + st.Field(fa.Field).Name() + " <- " + w
+						}
+					}
+				}
+			}
+		}
 		return true, ""
+	case *ssa.Slice:
+		// a slice of something shares its backing array
+		return false, "a slice of " + exprStr(x.X) + " (shares its backing array)"
 	case *ssa.MakeInterface:
 		return c.deepFresh(x.X, depth+1)
 	case *ssa.ChangeType:
